@@ -32,6 +32,8 @@ def jobs(tier):
     for sh in ("nested+late", "cfglist+late", "nested+env"):
         for leaf in ["list-int", "dict-typed", "list-int-cd", "dict-any-dflt", "dict-of-lists"]:
             out.append({"name": "%s/%s" % (sh, leaf), "shape": sh, "leaf": leaf, "depth": b["depth"], "tier": tier})
+    for fmt in (LOAD_FORMATS if tier == "thorough" else LOAD_FORMATS[:3]):
+        out.append({"name": "loaded/%s" % fmt, "kind": "loaded", "fmt": fmt})
     return out
 
 
@@ -115,8 +117,85 @@ class Monitor:
         self.judge(ctx, w, hist, op)
 
 
+LOAD_FORMATS = ["json", "yaml", "pickle", "bson", "xml"]
+
+
+def _loaded_pairs(job, ctx):
+    """two (then three) configurations of one schema are *loaded* from the same unchanged documents - directly and through
+    an include file - and then one of them is mutated in place at every untyped / typed container position"""
+    import copy
+    import os
+    import cincoconfig as cc
+    fmt = job["fmt"]
+    only = job.get("only")
+    tree = {"ul": [1, [2, 3], {"k": [4]}], "ud": {"a": {"b": [5]}, "l": [6]}, "any": {"x": [7]}, "tl": [1, 2], "td": {"k": 1},
+            "sub": {"ul": [[8]], "any": [9, [10]]}}
+    if fmt == "xml":
+        tree = {"ul": [1, [2, 3]], "ud": {"a": {"b": [5]}, "l": [6]}, "any": {"x": [7]}, "tl": [1, 2], "td": {"k": 1}, "sub": {"ul": [[8]], "any": [9, [10]]}}
+    mutations = [
+        ("ul-append", lambda c: c.ul.append("m")), ("ul-inner", lambda c: c.ul[1].append("m")), ("ud-inner", lambda c: c.ud["a"]["b"].append("m")),
+        ("ud-new", lambda c: c.ud.__setitem__("new", 1)), ("any-inner", lambda c: c.any["x"].append("m")), ("tl-append", lambda c: c.tl.append(9)),
+        ("td-set", lambda c: c.td.__setitem__("n", 2)), ("sub-ul-inner", lambda c: c.sub.ul[0].append("m")), ("sub-any-inner", lambda c: c.sub.any[1].append("m")),
+        ("dyn-inner", lambda c: c.extra["e"].append("m")),
+    ]
+    for via in ("direct", "include", "include-nested"):
+        for mname, mutate in mutations:
+            ident = [via, mname]
+            if only is not None and only != ident:
+                continue
+            s = cc.Schema(dynamic=True)
+            s.ul = cc.ListField(); s.ud = cc.DictField(); s.any = cc.AnyField()
+            s.tl = cc.ListField(cc.IntField()); s.td = cc.DictField(cc.StringField(), cc.IntField())
+            s.sub.ul = cc.ListField(); s.sub.any = cc.AnyField()
+            s.include = cc.IncludeField(startdir=ctx.tmp)
+            s.sub.inc = cc.IncludeField(startdir=ctx.tmp)
+            full = dict(copy.deepcopy(tree), extra={"e": [11]})
+            f = cc.ConfigFormat.get(fmt)
+            if via == "direct":
+                main = full
+            elif via == "include":
+                with open(os.path.join(ctx.tmp, "inc.cfg"), "wb") as fh:
+                    fh.write(f.dumps(None, full))
+                main = {"include": "inc.cfg"}
+            else:
+                with open(os.path.join(ctx.tmp, "incsub.cfg"), "wb") as fh:
+                    fh.write(f.dumps(None, full["sub"]))
+                main = dict({k: v for k, v in full.items() if k != "sub"}, sub={"inc": "incsub.cfg"})
+            mainpath = os.path.join(ctx.tmp, "main.cfg")
+            with open(mainpath, "wb") as fh:
+                fh.write(f.dumps(None, main))
+            case = {"kind": "loaded", "jobparams_full": {k: v for k, v in job.items() if k not in ("single", "only")}, "only": ident, "job": job["name"]}
+            try:
+                a, b = s(), s()
+                a.load(mainpath, fmt)
+                b.load(mainpath, fmt)
+                before_b = V.canon(cc.asdict(b))
+                pristine = V.canon(cc.asdict(a))
+                mutate(a)
+                c = s()
+                c.load(mainpath, fmt)
+            except Exception as exc:  # noqa
+                ctx.case(("loaded", fmt, via, mname), "loaded:raises", False)
+                ctx.violation("C13|loaded|%s|%s|raises" % (via, mname), "loading two configurations from one document (%s, %s) raised %r" % (fmt, via, exc), case)
+                continue
+            ctx.transitions += 1
+            ctx.case(("loaded", fmt, via, mname), "loaded:%s:%s" % (via, mname), True)
+            if V.canon(cc.asdict(b)) != before_b:
+                ctx.violation("C13|loaded|%s|%s|other-changed" % (via, mname),
+                              "A and B were loaded from the same %s document (%s); after %s on A, B reads %s" % (fmt, via, mname, V.show(cc.asdict(b), 160)), case)
+            if V.canon(cc.asdict(c)) != pristine:
+                ctx.violation("C13|loaded|%s|%s|later-load-polluted" % (via, mname),
+                              "a configuration loaded from the unchanged %s document (%s) after %s on A reads %s" % (fmt, via, mname, V.show(cc.asdict(c), 160)), case)
+    ctx.sample({"loaded_pairs": fmt, "mutations": [m[0] for m in mutations]})
+
+
 def run_job(job, ctx):
     single = job.get("single")
+    if single and single.get("kind") == "loaded":
+        j = dict(single["jobparams_full"]); j["only"] = single["only"]
+        return _loaded_pairs(j, ctx)
+    if job.get("kind") == "loaded":
+        return _loaded_pairs(job, ctx)
     if single:
         m = Monitor(single["shape"], single["leaf"], single.get("tier", "quick"))
         W.explore(ctx, m.spec, single["leaf"], 0, m, only=(single["hist"], single["op"]), sibling=True)
